@@ -661,6 +661,71 @@ def run_views(acc, idx, c):
     return "ok", True
 
 
+# ------------------------------------------------------------------ 0-d Arrays updated in place
+
+def scalar_cases(thorough):
+    for opn in ("iadd", "isub", "imul", "itruediv"):
+        for yk in ("float", "Q_cm", "A_s", "A_cm_0d", "nd0", "A3_cm"):
+            if opn in ("iadd", "isub") and yk in ("float", "A_s", "nd0"):
+                continue  # a pure number or seconds cannot be added to metres
+            for dt in ("f8", "f4"):
+                for holder in ("bare", "two-groups"):
+                    for shape in ("0d", "1"):
+                        if yk == "A3_cm" and shape == "0d":
+                            continue  # the result would not fit into the 0-d destination
+                        yield {"block": "scalar", "op": opn, "y": yk, "dt": dt, "holder": holder, "shape": shape}
+
+
+def run_scalar(acc, idx, c):
+    import osyris
+
+    A_ = osyris.Array
+    dt = _arr.DTYPES[c["dt"]]
+    x = A_(np.array(3.0 if c["shape"] == "0d" else [3.0], dtype=dt), unit="m")
+    alias = x
+    g1, g2 = osyris.Datagroup(), osyris.Datagroup()
+    if c["holder"] == "two-groups":
+        g1["t"] = x
+        g2["t2"] = x
+    y, yphys, ydims = {
+        "float": (2.0, 2.0, M2.dims_of()), "Q_cm": (50.0 * osyris.units("cm"), 50.0, M2.dims_of(cm=1)), "A_s": (A_(np.array(2.0), unit="s"), 2.0, M2.dims_of(s=1)),
+        "A_cm_0d": (A_(np.array(50.0), unit="cm"), 50.0, M2.dims_of(cm=1)), "nd0": (np.array(2.0), 2.0, M2.dims_of()),
+        "A3_cm": (A_(np.array([50.0]), unit="cm"), 50.0, M2.dims_of(cm=1)),
+    }[c["y"]]
+    P, dP = 300.0, M2.dims_of(cm=1)
+    want = {"iadd": P + yphys, "isub": P - yphys, "imul": P * yphys, "itruediv": P / yphys}[c["op"]]
+    wd = dP if c["op"] in ("iadd", "isub") else tuple(a + (b if c["op"] == "imul" else -b) for a, b in zip(dP, ydims))
+    try:
+        if c["holder"] == "two-groups":
+            r = IOPS[c["op"]](g1["t"], y)
+            g1["t"] = r
+        else:
+            r = IOPS[c["op"]](x, y)
+    except Exception as e:
+        acc.violation(f"C17:scalar:in-place-update-raised:{type(e).__name__}", idx, c, {})
+        return "violation", True
+    out = "ok"
+    if r is not alias:
+        acc.violation(f"C17:scalar:updated-Array-is-a-new-object:{'0-d' if c['shape'] == '0d' else '1-element'}", idx, c, {})
+        out = "violation"
+    seen = [("alias", alias)] + ([("other-group", g2["t2"])] if c["holder"] == "two-groups" else [])
+    for name, ref in seen:
+        got, gd, gt = _arr.phys(ref)
+        if tuple(gd) != tuple(wd) or not _arr.close(got, want, _arr.eps_for(dt) + gt):
+            acc.violation(f"C17:scalar:update-not-seen-through-{name}:{'0-d' if c['shape'] == '0d' else '1-element'}", idx, c,
+                          {"shows": repr(ref)[:80], "expected_cgs": float(want), "expected_dims": [str(q) for q in wd]})
+            out = "violation"
+    return out, True
+
+
+def scalar_work(payload):
+    acc = Acc()
+    for idx, c in my_share(scalar_cases(payload["tier"] == "thorough"), payload):
+        out, nt = run_scalar(acc, idx, c)
+        acc.case(nontrivial=nt, outcome=out)
+    return acc
+
+
 def views_work(payload):
     acc = Acc()
     thorough = payload["tier"] == "thorough"
@@ -715,7 +780,7 @@ def run(ctx):
         cov, acc = history.explore(ctx.pool, MOD, "heap", {"ops": ops_for(True), "dtype": "f8"}, 3, 2)
         covs.append(cov)
         accs.append(acc)
-    av = Acc.merged(ctx.pool.shards(MOD, "views_work", ctx.base()))
+    av = Acc.merged(ctx.pool.shards(MOD, "views_work", ctx.base()) + ctx.pool.shards(MOD, "scalar_work", ctx.base(), nshards=2))
     acc = Acc.merged(accs + [av])
     cov = {
         "views_cases": av.evaluations,
@@ -741,5 +806,9 @@ def replay_sigs(case):
     if case.get("block") == "views":
         acc = Acc()
         run_views(acc, 0, case)
+        return list(acc.violations.keys())
+    if case.get("block") == "scalar":
+        acc = Acc()
+        run_scalar(acc, 0, case)
         return list(acc.violations.keys())
     return [s for s, _ in history.replay_case(case)]
